@@ -215,7 +215,9 @@ def product_vec_state(F, rng, nprng, g):
             v[rng.choice(idx)] = 1.0
         vecs[s] = R.from_dense(F.cfg, v, [F.loc.leg], n=t)
         loc_arr[s] = v.reshape(F.d, 1)
-    psi = fpeps.product_peps(g, dict(vecs))
+    keys = list(vecs)
+    rng.shuffle(keys)                                # container order is the caller's business
+    psi = fpeps.product_peps(g, {k: vecs[k] for k in keys})
     return psi, loc_arr
 
 
@@ -229,7 +231,9 @@ def product_purif_state(F, rng, nprng, g):
         A = np.eye(F.d, dtype=np.complex128) if use_I else rand_array(nprng, (F.d, F.d)) * mask
         vecs[s] = R.from_dense(F.cfg, A, [F.loc.leg, F.loc.leg.conj()])
         loc_arr[s] = A
-    psi = fpeps.product_peps(g, dict(vecs))
+    keys = list(vecs)
+    rng.shuffle(keys)                                # container order is the caller's business
+    psi = fpeps.product_peps(g, {k: vecs[k] for k in keys})
     return psi, loc_arr
 
 
